@@ -18,8 +18,9 @@ TIME_SI = {"h": Fraction(3600), "min": Fraction(60), "s": Fraction(1), "ds": Fra
 # ---------------------------------------------------------------------------------------------
 # running histories on the real engine, sandboxed
 # ---------------------------------------------------------------------------------------------
-def child_env(kind="plain"):
+def child_env(kind="plain", extra=None):
     env = dict(os.environ)
+    env.update(extra or {})
     env["PYTHONPATH"] = os.path.join(common.REPO, "src") + os.pathsep + HERE
     if kind == "asan":
         rc, out = common.run(["g++", "-print-file-name=libasan.so"])
@@ -29,7 +30,7 @@ def child_env(kind="plain"):
     return env
 
 
-def _run_chunk(so, jobs, timeout, kind, stall=None):
+def _run_chunk(so, jobs, timeout, kind, stall=None, env_extra=None):
     """one child; returns (per-job results, finished jobs, status, last begun call, stderr tail, wall).
     `stall`: kill the child when it prints nothing for that many seconds (a call that does not return)"""
     d = tempfile.mkdtemp(prefix="life_jobs_")
@@ -42,7 +43,7 @@ def _run_chunk(so, jobs, timeout, kind, stall=None):
         t0 = time.time()
         with open(outp, "w") as fo, open(errp, "w") as fe:
             p = subprocess.Popen([sys.executable, "-W", "ignore", os.path.join(HERE, "life_child.py"), spec], stdout=fo, stderr=fe,
-                                 env=child_env(kind))
+                                 env=dict(child_env(kind, env_extra), TMPDIR=d))     # the child's temporary files die with this directory
             status = None
             last_size, last_change = -1, time.time()
             started = False
@@ -91,7 +92,7 @@ def _run_chunk(so, jobs, timeout, kind, stall=None):
     return res, done, status, last_b, err, wall
 
 
-def run_jobs(jobs, kind="plain", per_job_timeout=20.0, chunk=12, parallel=6, stall=None):
+def run_jobs(jobs, kind="plain", per_job_timeout=20.0, chunk=12, parallel=6, stall=None, env_extra=None):
     """run every job (see life_child.py) in sandboxed children; returns {job id: {"results": [...],
     "status": "ok" | "crash:<rc>" | "timeout", "at": call index or None, "stderr": tail}}"""
     so = common.build_engine(kind)
@@ -106,7 +107,7 @@ def run_jobs(jobs, kind="plain", per_job_timeout=20.0, chunk=12, parallel=6, sta
         pending = list(ch)
         while pending:
             budget = 15.0 + sum(j.get("timeout", per_job_timeout) for j in pending)
-            res, done, status, last_b, err, wall = _run_chunk(so, pending, budget, kind, stall)
+            res, done, status, last_b, err, wall = _run_chunk(so, pending, budget, kind, stall, env_extra)
             nxt = []
             failed = None
             for j in pending:
@@ -269,7 +270,8 @@ def gen_tsamples(rng, dt, tmax_hint):
 
 
 def gen_script(rng, option, space_kind=None, dyadic=None, policy=None, static=False, degenerate=False, sub_molecule=False,
-               units=True, max_steps=120, mode=None, zero_tmax=None, quantity=None, many_reactions=False, huge_ratio=False, nearmiss=False):
+               units=True, max_steps=120, mode=None, zero_tmax=None, quantity=None, many_reactions=False, huge_ratio=False, nearmiss=False,
+               refused_edits=False, tsample_after=False, chem_file=False, refuse_space=False, default_tmax=False):
     """(script description for life_child, info) — a VALID script.  `units`: True (half of the scripts state their time
     quantities in their own units and use a units system with another time unit and a quantity unit that may differ from
     molecule), False, or "force"; `quantity`: force that quantity unit.
@@ -309,6 +311,8 @@ def gen_script(rng, option, space_kind=None, dyadic=None, policy=None, static=Fa
         tmax = 0.0
     kw = {"t_sample": ts, "time_step": dt, "sampling_policy": policy, "rng_seed": rng.randint(0, 2 ** 31 - 1)}
     explicit_tmax = rng.random() < 0.6 or not ts or option == "gillespie" or zero_tmax
+    if (default_tmax or tsample_after) and ts and not zero_tmax:
+        explicit_tmax = False
     if explicit_tmax:
         kw["t_max"] = tmax
     vary_units = bool(units) and (units == "force" or rng.random() < 0.5)
@@ -353,12 +357,30 @@ def gen_script(rng, option, space_kind=None, dyadic=None, policy=None, static=Fa
         kw["__seed_as__"] = rng.choice(["str", "np_int64", "array0", "float"])
     if r < 0.2 or 0.4 <= r < 0.5:
         kw["__from_dict__"] = True
+    S_extra = {}
+    if refused_edits:
+        # assignments that must raise; the caller catches the exception and goes on with the (unchanged) script
+        S_extra["edits"] = [rng.choice([{"op": "refuse", "attr": "sampling_policy", "value": rng.choice(["on_sample", "every_step", "", "on_tsample"])},
+                                        {"op": "refuse", "attr": "sampling_policy", "value": "on_sample"},
+                                        {"op": "refuse", "attr": "time_step", "value": "fast"},
+                                        {"op": "refuse", "attr": "t_sample", "value": {"__unitarray__": [0.0, 1.0], "units": "mol"}},
+                                        {"op": "refuse", "attr": "init_state_processing", "value": "floor_all"}])
+                            for _ in range(rng.randint(1, 2))]
+    if tsample_after and ts:
+        # constructed with another request list (longer or shorter horizon), the real one assigned afterwards
+        last = expect["tsamples"][-1] if expect["tsamples"] else 1.0
+        kw["__tsample_first__"] = [0.0, (last if last > 0 else 1.0) * rng.choice([0.5, 2.0, 3.0])]
+    if chem_file:
+        S_extra["system_ops"] = [{"op": "chem_file", "layout": rng.choice(["rows", "rows", "lines"]), "newline": rng.random() < 0.5, "crlf": rng.random() < 0.2}]
+    if refuse_space:
+        S_extra.setdefault("system_ops", []).append({"op": "refuse_space", "beyond": rng.choice([0, 0, 3])})
     info = {"option": option, "policy": policy, "dyadic": dyadic and tu == "s" and "units_system" not in kw, "style": style, "nsp": nsp, "n": n,
             "space": system["space"]["type"], "mode": mode, "static": static, "explicit_tmax": explicit_tmax, "units": "units_system" in kw,
             "n_directed_reactions": 2 * len(system["network"]["reactions"]), "many_reactions": many_reactions, "huge_ratio": huge_ratio,
             "seed_as": kw.get("__seed_as__", "int"), "from_dict": bool(kw.get("__from_dict__")) and "units_system" not in kw and not isinstance(kw["t_sample"], dict),
             "expect": expect, "ts_form": form, "quantity": (kw["units_system"]["quantity"] if "units_system" in kw else "molecule")}
-    return {"system": system, "kw": kw}, info
+    info.update(refused_edits=bool(S_extra.get("edits")), tsample_after="__tsample_first__" in kw, system_ops=[o["op"] for o in S_extra.get("system_ops", [])])
+    return dict({"system": system, "kw": kw}, **S_extra), info
 
 
 # ---------------------------------------------------------------------------------------------
@@ -383,11 +405,26 @@ def init_failures(x):
     for b in rec.get("bad", []):
         bad.append(("buffer-length:%s" % b["arg"], "%s is handed a %s buffer of %r entries with the count %r: the engine reads %r entries"
                     % (rec["fn"], b["arg"], b["buffer_length"], b["count_passed"], b["count_passed"]), b["buffer_length"], b["count_passed"]))
+    for b in rec.get("bad_values", []):
+        bad.append(("bad-index:%s" % b["arg"], "%s is handed %s = %r, which the engine uses as a subscript below %r" % (rec["fn"], b["arg"], b["value"], b["limit"]),
+                    b["value"], "< %r" % b["limit"]))
     if rec.get("inspect_error"):
         bad.append(("init-arguments", "the arguments of %s could not be inspected (%s): signature changed?" % (rec["fn"], rec["inspect_error"]), rec["inspect_error"], None))
     if rec.get("rc", 0) != 0 and "raised" not in x:
         bad.append(("native-init-rc", "%s returned error code %d for a script the Python setters accepted, and setup() went on (the object is "
                     "used without having been initialised)" % (rec["fn"], rec["rc"]), rec["rc"], 0))
+    return bad
+
+
+def edit_failures(x):
+    """assignments that must be refused (reported by the child as "edits"): each one raised"""
+    bad = []
+    for ed in x.get("edits", []) or []:
+        if ed["op"] in ("refuse", "refuse_space") and not ed.get("raised"):
+            bad.append(("edit-not-refused", "%s = %r was accepted" % (ed.get("attr", "system.space"), ed.get("value", "<space naming an undefined environment>")), None, "raises"))
+        if ed["op"] == "chem_file" and ed.get("len") != ed.get("expected_len"):
+            bad.append(("text-array-file", "a chemostat map of %r values written to a text file over several lines is loaded as %r values" % (ed.get("expected_len"), ed.get("len")),
+                        ed.get("len"), ed.get("expected_len")))
     return bad
 
 
